@@ -20,6 +20,16 @@ ROUNDS = 20
 AUXPHIS = {}
 ST = ("arg", 0)
 POSN = (48, 4)
+PSZ = [4]        # size of the buffer-position field as the analysed tree declares it (set_posn_size)
+
+
+def set_posn_size(mod):
+    """the buffer-position field is followed at its declared width (a narrower field is still an integer, not data)"""
+    comp = mod.composites.get("tinyjambu_hash_state_p_t")
+    mem = [m for m in (comp or {}).get("members", []) if m["name"] == "posn"]
+    if not mem or mem[0]["offset"] != 48 or mem[0]["size"] not in (1, 2, 4, 8):
+        raise Broken("anchor vanished: the hash state's buffer-position field is not a 1/2/4/8-byte integer at offset 48")
+    PSZ[0] = mem[0]["size"]
 
 
 def W(c):
@@ -106,7 +116,7 @@ class Handler(mode.Handler):
 
 def make_exec(f, starts=None, arg_consts=None, pre=(), inline=None, handler=None, peel=(), head_consts=None):
     return irx.Exec(f, handler or Handler(inline), havoc="auto", auto=True, split_max=16, starts=starts, arg_consts=arg_consts,
-                    int_cells=lambda ob, off, n: ob == ST and (off, n) == POSN,
+                    int_cells=lambda ob, off, n: ob == ST and (off, n) == (48, PSZ[0]),
                     callee_writes={"tinyjambu_permutation_256": {0: (0, 16)}}, pre_conds=pre, peel=peel, head_consts=head_consts, endptr=True, unrotate=True)
 
 
@@ -114,7 +124,7 @@ def posn_starts():
     out = []
     for pz in range(16):
         def setup(ex, path, pz=pz):
-            path.lfmem[(ST, 48, 4)] = Lf.c(pz)
+            path.lfmem[(ST, 48, PSZ[0])] = Lf.c(pz)
             path.start_lfmem = dict(path.lfmem)
         out.append(("posn=%d" % pz, setup))
     return out
@@ -157,6 +167,7 @@ def check_compress_events(c, f, p, pevents, S, K03, blockbytes, domain, tag):
 
 
 def run_update(ck_ob, mod, label):
+    set_posn_size(mod)
     f = mod.fn("tinyjambu_hash_update")
     IN = ("arg", 1)
     NLEN = ("n", 2)
@@ -257,7 +268,7 @@ def run_update(ck_ob, mod, label):
         if bad_ev:
             raise Broken("tinyjambu_hash_update: memory accesses the per-class analysis cannot resolve (%s)" % (bad_ev[:2],))
         c("STREAM", True, "no-unknown-calls", "only permutation calls", "")
-        posn_end = p.lfmem.get((ST, 48, 4))
+        posn_end = p.lfmem.get((ST, 48, PSZ[0]))
         if not fresh:
             pz = int(cls[0][2].split("=")[1])
             S0 = words_at(p, ST, 0, 4, True)
@@ -340,7 +351,7 @@ def run_update(ck_ob, mod, label):
             # and the next loop goes on with the same cursor and remaining length
             p2, i2 = tops[p.end[1]]
             ok_h = not pev and p.env.get(("init", p2[0].id)) == Lf.s(cur) and p.env.get(("init", i2[0].id)) == Lf.s(rem) \
-                and mode.words_eq(words_at(p, ST, 0, 8), S0 + K0) and posn_end == p.start_lfmem.get((ST, 48, 4), posn_end)
+                and mode.words_eq(words_at(p, ST, 0, 8), S0 + K0) and posn_end == p.start_lfmem.get((ST, 48, PSZ[0]), posn_end)
             c("STREAM", ok_h, "loop-handover", "the next block loop continues with the same cursor and remaining length; nothing is compressed in between",
               "between two block loops: cursor %s remaining %s, %d permutation call(s)" % (p.env.get(("init", p2[0].id)), p.env.get(("init", i2[0].id)), len(pev)))
             handover[h0] = p.end[1]
@@ -372,7 +383,7 @@ def run_update(ck_ob, mod, label):
                 c("STREAM", okg, "bulk-guard", "%d blocks are taken only when at least %d bytes remain" % (nb_, -adv_), "loop guard is not 'remaining >= %d'" % -adv_)
                 c("STREAM", bc == Lf({cur: 1, 1: -adv_}) and br_ == Lf({rem: 1, 1: adv_}), "bulk-advance", "cursor += %d, remaining -= %d" % (-adv_, -adv_),
                   "after a round cursor=%s remaining=%s: input skipped or re-read" % (bc, br_))
-                iter_posn.append(posn_end == p.start_lfmem.get((ST, 48, 4)) or posn_end == Lf.c(0))
+                iter_posn.append(posn_end == p.start_lfmem.get((ST, 48, PSZ[0])) or posn_end == Lf.c(0))
                 n += 4
                 continue
         if p.end[0] == "backedge":
@@ -394,7 +405,7 @@ def run_update(ck_ob, mod, label):
                 c("STREAM", okg, "block-guard", "a whole block is taken only when at least 16 bytes remain", "loop guard is not 'remaining >= 16'")
                 c("STREAM", bc == Lf({cur: 1, 1: 16}) and br == Lf({rem: 1, 1: -16}), "block-advance", "cursor += 16, remaining -= 16",
                   "after a block cursor=%s remaining=%s: input skipped or re-read" % (bc, br))
-            iter_posn.append(posn_end == p.start_lfmem.get((ST, 48, 4)) or posn_end == Lf.c(0))
+            iter_posn.append(posn_end == p.start_lfmem.get((ST, 48, PSZ[0])) or posn_end == Lf.c(0))
             n += 10
         elif p.end[0] == "ret" and style.get(h0, ("rem",))[0] == "count":
             from .aeadlib import residue_cases
@@ -415,7 +426,7 @@ def run_update(ck_ob, mod, label):
             c("STREAM", okb, "tail-stash(%d)" % r, "the %d left-over bytes are stashed at the start of the buffer" % r, "left-over bytes are not stashed at buffer[0..%d)" % r)
             # the position is either set to the left-over length here, or - with nothing left over - left as the block loop keeps it,
             # which then must be 0 from the loop's entry on (decided below, once all paths are known)
-            if r == 0 and posn_end != Lf.c(0) and posn_end == p.start_lfmem.get((ST, 48, 4)):
+            if r == 0 and posn_end != Lf.c(0) and posn_end == p.start_lfmem.get((ST, 48, PSZ[0])):
                 relies[0] = True
                 c("STREAM", True, "tail-posn(0)", "position left as the block loop keeps it (0: see entry-posn / block-posn)", "")
             else:
@@ -442,6 +453,7 @@ def run_update(ck_ob, mod, label):
 
 
 def run_update_small(ck_ob, mod, label, maxlen=100):
+    set_posn_size(mod)
     """tinyjambu_hash_update for every buffer position 0..15 and EVERY input length 0..maxlen, each evaluated as one straight path (position
     and length concrete, data symbolic): whatever the loop structure, the compressions must be those of the byte stream
     (buffered bytes || input) cut into 16-byte blocks, and the state afterwards (chaining value, left-over bytes, position) that of the
@@ -456,7 +468,7 @@ def run_update_small(ck_ob, mod, label, maxlen=100):
         bad = None
         for ln in range(maxlen + 1):
             def setup(ex_, path, pz=pz):
-                path.lfmem[(ST, 48, 4)] = Lf.c(pz)
+                path.lfmem[(ST, 48, PSZ[0])] = Lf.c(pz)
                 path.start_lfmem = dict(path.lfmem)
             ex = make_exec(f, starts=[("posn=%d" % pz, setup)], arg_consts={li: ln})
             paths = ex.run(max_paths=50)
@@ -499,8 +511,8 @@ def run_update_small(ck_ob, mod, label, maxlen=100):
                     raise Broken("tinyjambu_hash_update: a buffered byte is not representable in the term domain: not decided by the small-length rule")
                 if why is None and not all(mem_byte(p, ST, 32 + i) == left[i] for i in range(r)):
                     why = "the %d left-over byte(s) of the stream are not at the start of the block buffer" % r
-                if why is None and p.lfmem.get((ST, 48, 4)) != Lf.c(r):
-                    why = "buffer position becomes %s, expected %d" % (p.lfmem.get((ST, 48, 4)), r)
+                if why is None and p.lfmem.get((ST, 48, PSZ[0])) != Lf.c(r):
+                    why = "buffer position becomes %s, expected %d" % (p.lfmem.get((ST, 48, PSZ[0])), r)
             if why is not None and bad is None:
                 bad = (ln, why)
         ck_ob(bad is None, "SMALL", f.name, "stream-machine(posn=%d,len=0..%d)[%s]" % (pz, maxlen, label),
@@ -512,6 +524,7 @@ def run_update_small(ck_ob, mod, label, maxlen=100):
 
 
 def run_finalize(ck_ob, mod, label):
+    set_posn_size(mod)
     f = mod.fn("tinyjambu_hash_finalize")
     OUT = ("arg", 1)
     where0 = relpath("%s:%d" % (f.file, f.line))
@@ -552,13 +565,14 @@ def run_finalize(ck_ob, mod, label):
             c("CONSTR", not bad, "digest-format(posn=%d)" % pz, "digest = LE32(L'[0..3]) || LE32(R'[0..3])", "digest byte %s is not the specified byte of L' || R'" % bad[:3])
             extra = [k for k in outs if k[0] != OUT or not 0 <= k[1] < 32]
             c("CONSTR", not [k for k in extra if k[0] == OUT], "digest-range(posn=%d)" % pz, "exactly 32 output bytes", "writes outside out[0..32): %s" % extra[:3])
-            c("STREAM", p.lfmem.get((ST, 48, 4)) == Lf.c(0), "finalize-posn(posn=%d)" % pz, "position reset to 0", "position after finalize is %s" % p.lfmem.get((ST, 48, 4)))
+            c("STREAM", p.lfmem.get((ST, 48, PSZ[0])) == Lf.c(0), "finalize-posn(posn=%d)" % pz, "position reset to 0", "position after finalize is %s" % p.lfmem.get((ST, 48, PSZ[0])))
         n += 10
     c("CONSTR", seen == set(range(16)), "finalize-classes", "all 16 buffer positions handled", "positions handled: %s" % sorted(seen))
     return n + 1
 
 
 def run_init(ck_ob, mod, label):
+    set_posn_size(mod)
     f = mod.fn("tinyjambu_hash_init")
     where0 = relpath("%s:%d" % (f.file, f.line))
 
@@ -574,7 +588,7 @@ def run_init(ck_ob, mod, label):
     K = words_at(p, ST, 16, 4)
     c("INIT", mode.words_eq(S, [W(0)] * 4), "init-L", "L = 0", "state words are not all zero after init: %s" % mode.first_diff(S, [W(0)] * 4))
     c("INIT", mode.words_eq(K, [W(0xFFFFFFFF)] * 4), "init-R", "stored k[0..3] = 0xFFFFFFFF (R = 0 pre-inverted)", "k[0..3] not all-ones after init: %s" % mode.first_diff(K, [W(0xFFFFFFFF)] * 4))
-    c("INIT", p.lfmem.get((ST, 48, 4)) == Lf.c(0), "init-posn", "buffer position = 0", "buffer position after init is %s (left from the previous use of the object)" % p.lfmem.get((ST, 48, 4)))
+    c("INIT", p.lfmem.get((ST, 48, PSZ[0])) == Lf.c(0), "init-posn", "buffer position = 0", "buffer position after init is %s (left from the previous use of the object)" % p.lfmem.get((ST, 48, PSZ[0])))
     # reinit and one-shot
     g = mod.fn("tinyjambu_hash_reinit")
     ex2 = make_exec(g, inline=inl)
@@ -588,7 +602,7 @@ def run_init(ck_ob, mod, label):
             missing.append("L = 0")
         if not mode.words_eq(words_at(q, ST, 16, 4), [W(0xFFFFFFFF)] * 4):
             missing.append("R = 0 (k[0..3] all-ones)")
-        if q.lfmem.get((ST, 48, 4)) != Lf.c(0):
+        if q.lfmem.get((ST, 48, PSZ[0])) != Lf.c(0):
             missing.append("buffer position = 0")
         direct = not missing
     ck_ob(direct, "INIT", g.name, "reinit[%s]" % label,
